@@ -53,8 +53,8 @@ def generate(rng):
     cfg["layouts"] = sample_layouts(rng, float32=False)
     ops = sample_prefix(rng, cfg, p_any=0.3, max_len=3) + [{"op": "fit", "data": 0}]
     if fam.get("sparse") and cfg["d"] >= 2 and rng.random() < 0.4:
-        ops.append({"op": "path", "data": 0, "args": {"alpha_multiplier": choice(rng, [3.0, 10.0]), "min_features": cfg["d"] - 1,
-                                                      "max_patience": 1}})
+        ops.append({"op": "path", "data": 0, "args": {"alpha_multiplier": choice(rng, [3.0, 10.0]), "min_features": rng.randint(1, cfg["d"] - 1),
+                                                      "max_patience": 1}})     # goes on after the first features are lost
     sigma = weighted(rng, [(0.0, 4), (0.3, 3), (1.0, 2), (3.0, 1)])
     opt = "teleport" if sigma > 0 else weighted(rng, [("real", 3), ("scaled", 1)])
     n_steps = cfg["params"]["max_iter"] * (1 if fam.get("categorical") else expected_batches(cfg["n"], cfg["params"].get("batch_size")))
@@ -162,7 +162,18 @@ class GradOracle:
     def on_step(self, world, opt, params, grads):
         self.global_step += 1
         res = self.res
-        if not (self.judge_rs.rand() < self.p_judge):
+        draw = self.judge_rs.rand()
+        p_now = self.p_judge
+        sel = getattr(self.model, "get_selection", None)
+        if sel is not None and p_now < 1.0:
+            # rarely reached, interesting states are judged preferentially: a sparse model that has already lost features
+            try:
+                if len(sel()) < self.cfg["d"]:
+                    p_now = 1.0 if getattr(self.model, "dynamic", False) else 0.5
+                    res.probe("steps_with_pruned_features_seen")
+            except Exception:
+                pass
+        if not (draw < p_now):
             return
         m = self.model
         Xb, Ab, ids_now = self.h.resolve()
